@@ -56,14 +56,15 @@ Cases == {[kind |-> "key", ser |-> s, shape |-> sh, pwd |-> "none"] : s \in {"pr
          \* encryption can have (1..16), for private keys of 32, 31 and 30 bytes (the DER length decides the pad length)
          {[kind |-> "key", ser |-> "pkcs8", shape |-> "ylow" \o ToString(k) \o "_" \o ToString(l), pwd |-> "ascii"] : k \in 1..16, l \in {30, 31, 32}} \cup
          \* (top80: the most significant byte is exactly 80, the smallest value that needs the sign octet)
-         {[kind |-> "sig", ser |-> "asn1sig", shape |-> sh, pwd |-> "none"] : sh \in Shapes \cup {"top80"}} \cup
+         {[kind |-> "sig", ser |-> "asn1sig", shape |-> sh, pwd |-> "none"] : sh \in Shapes \cup {"top80", "d_one", "d_max", "v_nm1"}} \cup   \* (1, n-2, n-1: r and s range over [1, n-1])
          {[kind |-> "cipher", ser |-> "asn1cipher", shape |-> sh, pwd |-> "none"] : sh \in {"plain", "lead0_1"}} \cup
          {[kind |-> "wrongpwd", ser |-> "pkcs8", shape |-> "plain", pwd |-> p] : p \in {"ascii", "utf8", "long"}} \cup
          {[kind |-> "loader", ser |-> l, shape |-> m, pwd |-> "none"] :
             l \in {"X509KeyPair", "GMX509KeyPairsSingle", "GMX509KeyPairs", "LoadX509KeyPair", "LoadGMX509KeyPair", "LoadGMX509KeyPairs"},
+            \* grafted: another private scalar in a PKCS#8 file whose optional public-key field holds the certificate's point;
             \* negated: the key n-d, whose point has the same x; match_chain: the certificate PEM holds the leaf followed by
             \* its CA, the key is the leaf's; chain_cakey: the same PEM with the CA's key (it matches a certificate, not the leaf)
-            m \in {"match", "otherkey", "swapped", "negated", "match_chain", "chain_cakey"}}
+            m \in {"match", "otherkey", "swapped", "negated", "match_chain", "chain_cakey", "grafted"}}
 Expect(x) == CASE x.kind \in {"key", "sig", "cipher"} -> [roundtrip |-> TRUE]
                \* decoding is a function of (bytes, password) alone: the right password opens the key before and after any
                \* number of attempts with other passwords, and those fail whether or not the right one was used before
